@@ -132,3 +132,10 @@ where
         (tx, rx)
     }
 }
+
+/// Verification hooks (add-only, compiled only with `--cfg remoc_verif`).
+#[cfg(remoc_verif)]
+#[allow(missing_docs, unused_imports)]
+pub mod verif_io {
+    pub use super::io::{ChannelBytesReader, LimitedBytesWriter};
+}
